@@ -96,10 +96,21 @@ def judge(ctx, status: str) -> list[dict]:
                     dels = [x for x in nodes.values() if x.order < c.order and x.rec is not None and x.rec.request.method == "DELETE"]
                     ok_dels = [x for x in dels if x.status is not None and 200 <= x.status < 300]
                     same_res = [x for x in dels if SC.is_segment_prefix(x.segments, c.segments)]
+
+                    def differs_only_in_collection_name(x) -> bool:
+                        # literal (collection) segments equal up to a trailing 's', identifier segments equal
+                        if x.op is None or len(x.segments) > len(c.segments):
+                            return False
+                        tmpl = ("api" + x.op.path).split("/")
+                        ok_ids = all(a == b for a, b, t in zip(x.segments, c.segments, tmpl) if t.startswith("{"))
+                        lits = [(a, b) for a, b, t in zip(x.segments, c.segments, tmpl) if not t.startswith("{")]
+                        return ok_ids and all(a == b or a.rstrip("s") == b.rstrip("s") for a, b in lits) and any(a != b for a, b in lits)
+
                     reason = (
                         "no_delete_in_tree" if not dels
                         else "delete_did_not_succeed" if same_res
-                        else "deleted_resource_is_unrelated"
+                        else "deleted_resource_is_unrelated" if any(differs_only_in_collection_name(x) for x in dels)
+                        else "deleted_resource_has_other_identifier"
                     )
                     key = ("R1", reason)
                     if key not in reported:
